@@ -91,6 +91,58 @@ int main() {{
 }}
 """
             srcs = CVODE_SRCS
+        elif backend == "cusparse":
+            # the CUDA sources run on the host: kernels are launched through VERIF_LAUNCH (every "thread" of the grid
+            # in turn), device memory is exactly-sized heap memory.  All abundance vectors form ONE batch, the grid is
+            # smaller than the batch so that the grid-stride loop of the kernels is exercised.
+            import re as _re
+
+            for rel in list(files):
+                if rel.endswith(".cu"):
+                    txt = _re.sub(r"\b(\w+)\s*<<<\s*([^,>]+),\s*([^,>]+)(?:,[^>]*)?>>>\s*\(", r"VERIF_LAUNCH(\1, \2, \3)(", files[rel])
+                    (d / (rel[:-3] + "_cu.cpp")).write_text("#include <algorithm>\nusing std::min; using std::max;\n" + txt)
+            body = f"""
+#define VERIF_CUDA_DEFINE_DIMS
+#include <nvector/nvector_cuda.h>
+#include <sunmatrix/sunmatrix_cusparse.h>
+int main() {{
+    FILE *o = fopen("out.bin", "wb");
+    SUNContext ctx; SUNContext_Create(NULL, &ctx);
+    const int ng = {ng};
+    NaunetData *d = (NaunetData *)malloc(sizeof(NaunetData) * ng);   /* exactly sized */
+    for (int g = 0; g < ng; g++) {{
+    {assign.replace("d.", "d[g].")}
+    }}
+    cudaStream_t stream; cudaStreamCreate(&stream);
+    SUNCudaBlockReduceExecPolicy *pol = new SUNCudaBlockReduceExecPolicy(2, 1, stream);   /* 2 threads for ng systems */
+    N_Vector u = N_VNew_Cuda((sunindextype)NEQUATIONS * ng, ctx);
+    N_Vector ud = N_VNew_Cuda((sunindextype)NEQUATIONS * ng, ctx);
+    N_VSetKernelExecPolicy_Cuda(u, pol, pol); N_VSetKernelExecPolicy_Cuda(ud, pol, pol);
+    free(u->content->data); u->content->data = (realtype *)malloc(sizeof(realtype) * NEQUATIONS * ng);
+    free(ud->content->data); ud->content->data = (realtype *)malloc(sizeof(realtype) * NEQUATIONS * ng);
+    for (int g = 0; g < ng; g++) for (int i = 0; i < NEQUATIONS; i++) {{ u->content->data[g * NEQUATIONS + i] = Y[g][i]; ud->content->data[g * NEQUATIONS + i] = 0.0; }}
+    if (Fex(0.0, u, ud, d) != 0) return 3;
+    cusparseHandle_t h; cusparseCreate(&h);
+    SUNMatrix J = SUNMatrix_cuSparse_NewBlockCSR(ng, NEQUATIONS, NEQUATIONS, NNZ, h, ctx);
+    if (InitJac(J) != 0) return 4;
+    if (Jac(0.0, u, ud, J, d, NULL, NULL, NULL) != 0) return 5;
+    if (verif_kernel_threads != 4) return 6;   /* two launches of a 1 x 2 grid */
+    for (int g = 0; g < ng; g++) {{
+        realtype *k = (realtype *)malloc(sizeof(realtype) * NREACTIONS);
+        for (int i = 0; i < NREACTIONS; i++) k[i] = 0.0;
+        EvalRates(k, u->content->data + g * NEQUATIONS, &d[g]);
+        put(o, k, NREACTIONS);
+        put(o, ud->content->data + g * NEQUATIONS, NEQUATIONS);
+        for (int i = 0; i < NEQUATIONS + 1; i++) {{ double v = (double)J->indexptrs[i]; put(o, &v, 1); }}
+        for (int i = 0; i < NNZ; i++) {{ double v = (double)J->indexvals[i]; put(o, &v, 1); }}
+        put(o, J->data + (size_t)g * NNZ, NNZ);
+        free(k);
+    }}
+    fclose(o);
+    return 0;
+}}
+"""
+            srcs = [f"src/naunet_{n}_cu.cpp" for n in ("rates", "fex", "jac", "constants", "physics")] + ["src/naunet_utilities.cpp"]
         elif backend == "rosenbrock4":
             body = f"""
 int main() {{
@@ -122,7 +174,10 @@ int main() {{
             raise HarnessError(backend)
         (d / "driver.cpp").write_text(common + body)
         flags = ["-fsanitize=address,undefined", "-fno-sanitize-recover=all", "-g", "-O0"] if sanitize else ["-O0"]
-        cmd = [GXX, "-std=c++17", "-w", *flags, "-I", str(SHIM), "-I", "include", *[s for s in srcs if (d / s).exists()], "driver.cpp", "-o", "drv", "-lm"]
+        cuda = ["-D__host__=", "-D__device__=", "-D__constant__=", "-D__global__="] if backend == "cusparse" else []
+        if backend == "cusparse":
+            srcs = [x for x in srcs if "naunet_cu.cpp" not in x and not x.endswith("src/naunet.cpp")]
+        cmd = [GXX, "-std=c++17", "-w", *flags, *cuda, "-I", str(SHIM), "-I", "include", *[s for s in srcs if (d / s).exists()], "driver.cpp", "-o", "drv", "-lm"]
         rc, so, se = run(cmd, timeout=timeout, cwd=str(d))
         if rc != 0:
             return {"error": "compile", "detail": "\n".join(ln for ln in se.splitlines() if "error" in ln)[:800]}
@@ -133,7 +188,7 @@ int main() {{
             return {"error": "runtime", "detail": head[:400], "stderr": err[:1500]}
         raw = (d / "out.bin").read_bytes()
         vals = struct.unpack(f"<{len(raw)//8}d", raw)
-        per = nreac + neq + (neq * neq if backend != "sparse" else (neq + 1 + 2 * nnz))
+        per = nreac + neq + (neq * neq if backend not in ("sparse", "cusparse") else (neq + 1 + 2 * nnz))
         if len(vals) != ng * per:
             raise HarnessError(f"oderun: {len(vals)} doubles, expected {ng*per}")
         out = []
@@ -142,7 +197,7 @@ int main() {{
             k = list(row[:nreac])
             yd = list(row[nreac : nreac + neq])
             rest = row[nreac + neq :]
-            if backend == "sparse":
+            if backend in ("sparse", "cusparse"):
                 rp = [int(x) for x in rest[: neq + 1]]
                 cv = [int(x) for x in rest[neq + 1 : neq + 1 + nnz]]
                 dv = list(rest[neq + 1 + nnz :])
